@@ -232,6 +232,7 @@ func run(c *mc.Ctx) {
 	c.Rep.Extra["surfaces"] = len(surfaces)
 	cacheHistories(c)
 	sizeThresholds(c)
+	selfAliasedDecode(c)
 	transcripts(c)
 }
 
